@@ -204,6 +204,8 @@ def gen_case(rnd, ctx, maxlen):
             if rnd.random() < 0.5:
                 n = 50 + rnd.randint(0, 1)
             k = rnd.choice(["KConst", "KTraitList"])
+            if n < len(traits) and traits[n]["kind"] in ("KTraitDict", "KTraitSet"):
+                k = "KConst"     # a List trait over a live dict/set object makes that object's items events ill-typed
             op = ["AddTrait", i, n, dict(kind=k, content=gen_content(rnd, k))]
             shadow[i][n] = k
             if n >= 50:
@@ -272,6 +274,12 @@ def run(ctx):
         cases = corpus() + [gen_case(rnd, ctx, maxlen) for _ in range(n)]
     for c in cases[2:4] + cases[-2:]:
         ctx.sample(c)
+    _evaluate = hist.evaluate
+
+    def sharded(*a, **k):              # C10 terms are large: small shards evaluate in parallel
+        k["shard"] = 40
+        return _evaluate(*a, **k)
+    hist.evaluate = sharded
     hist.run(ctx, "c10_driver.py", cases, to_term, HEADER, CASE_T, key_fn, describe, nontrivial,
              relation="C10.Corr.corr_codes (Model.step = HasTraits instances on every step)")
     proof_gate(ctx, ok, log, PROPS)
